@@ -58,6 +58,23 @@ def check(tier):
                           'validate() starts with `%s` (%s) but compact() with `%s` (%s): inputs with the same compact form can be treated differently'
                           % (src(firsts[0][0]), describe(firsts[0][1]), src(firsts[1][0]), describe(firsts[1][1])),
                           what='%s: validate() and compact() start with the same cleaning' % mn)
+            # ... and every further normalisation compact() applies to a part must be applied by validate() too: otherwise two spellings
+            # that compact() maps to one string are returned as two different values
+            cbody = strip_doc(cfn.body)
+            rets = [n for n in ast.walk(cfn) if isinstance(n, ast.Return) and n.value is not None]
+            used = {n.id for r_ in rets for n in ast.walk(r_.value) if isinstance(n, ast.Name)}
+            vassign = {}
+            for st in ast.walk(vfn):
+                if isinstance(st, ast.Assign) and len(st.targets) == 1 and isinstance(st.targets[0], ast.Name):
+                    vassign.setdefault(st.targets[0].id, set()).add(src(st.value))
+            for st in cbody[1:]:
+                for a in ast.walk(st):
+                    if isinstance(a, ast.Assign) and len(a.targets) == 1 and isinstance(a.targets[0], ast.Name) and a.targets[0].id in used:
+                        t_ = a.targets[0].id
+                        rep.check(src(a.value) in vassign.get(t_, ()), 'C03.sibling-normalisation', rel(prog.mods[cm].path), 'compact', src(a)[:120], a.lineno,
+                                  'compact() normalises the part `%s` (%s) but validate(), which does not go through compact(), has no such step: two inputs with '
+                                  'the same compact form are returned as different values' % (t_, src(a.value)[:60]),
+                                  what='%s: normalisation of %s present in both' % (mn, t_))
             continue
         leaves = flatten(raw_uses(prog, vm, vfn))
         if not leaves:
